@@ -18,13 +18,14 @@ import (
 // library functions) of bounded depth.
 
 type c23gen struct {
-	r       *core.R
-	extreme bool // the numeric argument being drawn may be one of the labelled extreme values (direct arguments only)
-	bounded bool // the request contains a function whose cost grows with geometric extent: only small, local geometry
-	safe    bool // functions that do their work in goroutines of their own: arguments that reach no known panic site
-	classes []string
-	touched []b6.FeatureID // features the earlier requests of a session added or changed
-	shorter bool           // a session replaced a feature by a shorter version of itself
+	r            *core.R
+	extreme      bool // the numeric argument being drawn may be one of the labelled extreme values (direct arguments only)
+	bounded      bool // the request contains a function whose cost grows with geometric extent: only small, local geometry
+	safe         bool // functions that do their work in goroutines of their own: arguments that reach no known panic site
+	classes      []string
+	touched      []b6.FeatureID // features the earlier requests of a session added or changed
+	shorter      bool           // a session replaced a feature by a shorter version of itself
+	geometryEdit bool           // a session tried to remove or overwrite a geometry tag
 }
 
 // c23costScaling lists the functions whose legitimate cost grows with the extent
@@ -737,7 +738,21 @@ func c23prelude(r *core.R, g *c23gen) []b6.Expression {
 		return xPairs(kv...)
 	}
 	for i, n := 0, r.Range(1, 2); i < n; i++ {
-		switch r.Intn(4) {
+		switch r.Intn(5) {
+		case 4: // an attempt to take a feature's geometry away (or to overwrite it with text), then reads of what is built on it
+			target := core.Pick(r, []struct {
+				id  b6.FeatureID
+				key string
+				on  []b6.FeatureID
+			}{{fPointID(1), "point", []b6.FeatureID{fPathID(1)}}, {fPointID(4), "point", []b6.FeatureID{fPathID(2), fAreaID(2)}}, {fPathID(2), "path", []b6.FeatureID{fAreaID(2)}}})
+			if r.Bool() {
+				out = append(out, xCall("remove-tag", xCall("find-feature", xID(target.id)), xStr(target.key)))
+			} else {
+				out = append(out, xCall("add-tag", xID(target.id), xTag(target.key, core.Pick(r, []string{"", "x", "51.5,-0.1"}))))
+			}
+			g.touched = append(g.touched, target.id)
+			g.touched = append(g.touched, target.on...)
+			g.geometryEdit = true
 		case 0: // a collection, then the same id again with fewer or more entries
 			id := fCollectionID(uint64(60 + r.Intn(3)))
 			a, b := r.Range(0, 6), r.Range(0, 6)
@@ -775,6 +790,9 @@ func c23prelude(r *core.R, g *c23gen) []b6.Expression {
 			out = append(out, xCall("find-relation", xID(id)))
 		}
 		out = append(out, xCall("find-feature", xID(id)), xCall("all-tags", xCall("find-feature", xID(id))))
+		if id.Type == b6.FeatureTypePath || id.Type == b6.FeatureTypeArea {
+			out = append(out, xCall("to-geojson", xCall("find-feature", xID(id))), xCall("centroid", xCall("find-feature", xID(id))))
+		}
 	}
 	return out
 }
